@@ -126,7 +126,11 @@ status_t StringMatcher :: SetPattern(const String & s, bool isSimple)
             {
                char c = *ptr;
 
-               if (escapeMode) escapeMode = false;
+               if (escapeMode)
+               {
+                  escapeMode = false;
+                  if (strchr(".[]()*+?{}|^$\\", c) != NULL) regexPattern += '\\';  // only regex-special chars need (or tolerate) a backslash:  "\w", "\1", "\<" etc would mean something else to regcomp()
+               }
                else
                {
                   switch(c)
@@ -136,13 +140,13 @@ status_t StringMatcher :: SetPattern(const String & s, bool isSimple)
                      case '+':  regexPattern += '\\'; break;  // pluses are considered literals, so escape those
                      case '*':  regexPattern += '.';  break;  // hmmm.
                      case '?':  c = '.';              break;  // question marks mean any-single-char
-                     case '\\': escapeMode = true;    break;  // don't transform the next character!
+                     case '\\': escapeMode = true; continue; // don't transform the next character!  (its backslash is emitted above, iff it is needed)
                      default:   /* empty */           break;
                   }
                }
                regexPattern += c;
             }
-            if (escapeMode) regexPattern += '\\';  // just in case the user left a trailing backslash
+            if (escapeMode) regexPattern += "\\\\";  // just in case the user left a trailing backslash
             regexPattern += ")$";
          }
       }
